@@ -17,6 +17,8 @@ use tracing::debug;
 pub struct SystemState {
     pub streams: AHashMap<u32, StreamState>,
     pub users: AHashMap<u32, UserState>,
+    /// The ID given to the user created last, whether that user still exists or not.
+    pub last_user_id: u32,
 }
 
 #[derive(Debug)]
@@ -371,7 +373,11 @@ impl SystemState {
             }
         }
 
-        let state = SystemState { streams, users };
+        let state = SystemState {
+            streams,
+            users,
+            last_user_id: current_user_id,
+        };
         debug!("+++ State +++");
         debug!("{state}");
         debug!("+++ State +++");
